@@ -100,6 +100,16 @@ Definition expected_getitem_args : list (Z -> Z * option Z * bool) :=
     fun offset => ((offset + 1), None, true) ].
 Local Close Scope Z_scope.
 
+(* the statement that directly follows the (top-level) call [f] *)
+Fixpoint after_call (f : string) (l : list stm) : option stm :=
+  match l with
+  | [] => None
+  | SEv (Call g) :: r =>
+      if String.eqb g f then match r with x :: _ => Some x | [] => None end
+      else after_call f r
+  | _ :: r => after_call f r
+  end.
+
 (* -------------------------------------------------- (b) the interpreter *)
 Definition cnt : Type := (nat * nat * nat)%type.   (* events, ifs, returns *)
 Definition c0 : cnt := (O, O, O).
